@@ -165,12 +165,24 @@ def multi(ctx, pool, sizes, reps=1):
     for n in sizes:
         for _ in range(reps):
             ps = [rng.choice(pool) for _ in range(n)]
-            ss = [vals.canon_scalar(rng)[1] for _ in range(n)]
+            variants = [([vals.canon_scalar(rng)[1] for _ in range(n)], [])]
+            if n:
+                # degenerate scalar vectors: every recoding all zero, all ones, all l-1, a single non-zero digit at either end
+                variants += [([0] * n, ['scalars:all-zero']), ([1] * n, ['scalars:all-one']), ([L - 1] * n, ['scalars:all-max']),
+                             ([0] * (n - 1) + [rng.choice([1, 8, L - 1])], ['scalars:single']),
+                             ([rng.choice([1, 1 << 252])] + [0] * (n - 1), ['scalars:single'])]
+            for ss, scl in variants:
+                _multi_one(ctx, rng, n, reps, ps, ss, scl)
+
+
+def _multi_one(ctx, rng, n, reps, ps, ss, scl):
+    if True:
+        if True:
             acc = vals.Pt(0, 0)
             for s, p in zip(ss, ps):
                 acc = vals.pt_add(acc, vals.pt_mul(s, p))
             e = exp_pt(acc)
-            ncl = ['n=%d' % n if n < 2 else 'n>=190' if n >= 190 else 'n<190']
+            ncl = ['n=%d' % n if n < 2 else 'n>=190' if n >= 190 else 'n<190'] + scl
             if n >= 500:
                 ncl.append('n>=500')
             if n >= 800:
@@ -231,6 +243,13 @@ def precomp(ctx, pool, n):
         nss = ns if rng.random() < 0.6 else rng.randint(0, ns)
         ss = [vals.canon_scalar(rng)[1] for _ in range(nss)]
         ds = [vals.canon_scalar(rng)[1] for _ in range(nd)]
+        zr = rng.random()
+        if zr < 0.15:
+            ss, ds = [0] * nss, [0] * nd          # every scalar zero: all NAF columns empty
+        elif zr < 0.25:
+            ss, ds = [0] * nss, ([0] * (nd - 1) + [1] if nd else [])
+        elif zr < 0.3:
+            ss, ds = ([1] + [0] * (nss - 1) if nss else []), [0] * nd
         acc = vals.Pt(0, 0)
         for s, p in zip(ss, sp):
             acc = vals.pt_add(acc, vals.pt_mul(s, p))
